@@ -89,3 +89,81 @@ class rot_niter:
     inline = True
     params = dict(self=_SELF)
     ensures = {"count": "result == self._n_templates * self._n_rotations"}
+
+
+# ---------------------------------------------------------------------------
+# the argmax over candidates (loop over a symbolic number of candidates, summarised as a map)
+from contracts.common import TSeqOfArrays
+
+_BASE = T.Obj("acryo.alignment._base:BaseAlignmentModel", {})
+_OPT = "BaseAlignmentModel._optimize"
+
+
+@contract("acryo.alignment._base:BaseAlignmentModel._optimize", props=["C06"])
+class abstract_optimize:
+    """abstract method: any (shift, quaternion, score) triple (the concrete models are C04/C05's subject)"""
+    trusted = True
+    params = dict(self=_BASE)
+    result = lambda interp, bound: (fresh_array("cand_shift", 1, "real", shape=(3,)),
+                                    fresh_array("cand_quat", 1, "real", shape=(4,)), V.fresh("cand_score", "real"))
+    ensures = {}
+
+
+@contract("acryo.alignment._base:BaseAlignmentModel.pre_transform", props=["C06"])
+class abstract_pre_transform:
+    trusted = True
+    params = dict(self=_BASE)
+    result = lambda interp, bound: fresh_array("pre_transformed", 3, "real", path=interp.path)
+    ensures = {}
+
+
+def _replay_optimize_multiple(ob_name, meta, model):
+    """replay on the real BaseAlignmentModel machinery with a tiny concrete model whose candidates are all distinct"""
+    return '''
+import numpy as np
+from acryo.alignment._base import RotationImplemented, BaseAlignmentModel
+N = int(model.get("N_candidates", 4)); N = min(max(N, 3), 12)
+rng = np.random.default_rng(7)
+class M(RotationImplemented):
+    def pre_transform(self, image, backend):
+        return image
+    def _optimize(self, subvolume, template, max_shifts, quaternion, pos, backend):
+        t = float(template.sum())
+        score = -abs(float(subvolume.sum()) - t)            # best candidate: the template the image was made from
+        return np.full(3, t, dtype=np.float32), np.array([t, 2 * t, 3 * t, 1.0], dtype=np.float32), score
+    def _score(self, *a, **k):
+        return 0.0
+templates = [np.full((3, 3, 3), 1.0 + i, dtype=np.float32) for i in range(N)]
+ok = True
+for j in range(N):
+    res = BaseAlignmentModel.align(M(templates), templates[j].copy(), (1.0, 1.0, 1.0))   # the argmax step itself
+    t = float(templates[j].sum())
+    good = (int(res.label) == j and abs(float(res.score)) < 1e-6 and np.allclose(res.shift, t)
+            and np.allclose(res.quat, [t, 2 * t, 3 * t, 1.0]))
+    print("truth", j, "->", int(res.label), float(res.score), res.shift, res.quat, "ok" if good else "WRONG")
+    ok = ok and good
+print("clause holds natively:", ok)
+print("CONFIRMED" if not ok else "NOT-CONFIRMED"); sys.exit(1 if not ok else 0)
+'''
+
+
+@contract("acryo.alignment._base:BaseAlignmentModel._optimize_multiple", props=["C06"])
+class optimize_multiple:
+    replay = staticmethod(_replay_optimize_multiple)
+    """Property clause: the result is the candidate with the highest score among ALL N candidates (every candidate i
+    is optimised against template_list[i] with mask_list[i]); label = its index, shift/quat/score are that candidate's."""
+    params = dict(self=_BASE, subvolume=T.Arr(3, "real"), template_list=TSeqOfArrays(3, "N_candidates"),
+                  mask_list=TSeqOfArrays(3, "N_candidates"), max_shifts=T.Tuple(T.Real(lo=0), T.Real(lo=0), T.Real(lo=0)),
+                  quaternion=T.Vec(4), pos=T.Vec(3), backend=T.Backend())
+    # caller (align): the sub-volume, every mask and every template have the model's input shape
+    requires = ["all(subvolume.shape[a] == mask_list.shape[a + 1] and subvolume.shape[a] == template_list.shape[a + 1] "
+                "for a in range(3))"]
+    ensures = {
+        "label_range": "0 <= result.label < template_list.shape[0]",
+        "maximal": "forall(lambda j: called_at('%s', j)[2] <= result.score, (0, template_list.shape[0]))" % _OPT,
+        "is_that_candidate": "result.score == called_at('%s', result.label)[2] and "
+                             "all(result.shift[c] == called_at('%s', result.label)[0][c] for c in range(3)) and "
+                             "all(result.quat[c] == called_at('%s', result.label)[1][c] for c in range(4))" % (_OPT, _OPT, _OPT),
+        "candidate_inputs": "forall(lambda j: called_args_at('%s', j)['template'][0, 0, 0] == template_list[j, 0, 0, 0], "
+                            "(0, template_list.shape[0]))" % _OPT,
+    }
